@@ -125,7 +125,7 @@ pub fn case_bitflips(va: &dyn VariantApi, a: &[u8], st: &CaseStats) -> Result<()
 }
 
 fn run_bitflips(ctx: &Ctx) -> CheckResult {
-    let cases = ctx.tier.pick(60u32, 1500);
+    let cases = ctx.tier.pick(150u32, 2500);
     for va in ctx.api.variants() {
         let v = va.v();
         ctx.pt_run(
